@@ -392,6 +392,12 @@ class C31(OpMachine):
                 has_edge = (b.loc_key, dkey) in asmcfg.edges2constraint
                 if present != has_edge:
                     raise Violation("C31/edge-mismatch", "block %#x -> %#x: destination present %s, edge %s" % (boff, doff, present, has_edge), facts)
+                if not present and cfg["blocs_wd"] is None and doff is not None:
+                    # without a block-count limit the exploration is exhaustive: every destination
+                    # gets a block of its own (a bad one when it cannot be decoded or is forbidden)
+                    w.probe("dest_absent")
+                    raise Violation("C31/successor-not-explored", "block %#x -> %#x: no block-count limit, but the destination was never "
+                                    "disassembled (it stays pending)" % (boff, doff), facts)
 
     def _check_merge(self, w, cfg, m, loc_db, asmcfg, facts):
         """bbl_simplifier must keep every instruction-level path."""
